@@ -126,6 +126,19 @@ def targets(ctx):
         m = build(cls, mi, fi, state, route, tree)
         b = guard("bytes", bytes, m)
         emitted = has_record(b, fi.number)
+        # the other ways a message is emitted: dump() into a stream, as a SIZE_DELIMITED frame, and embedded in a
+        # parent's repeated field - the same records, framed by the same length
+        from io import BytesIO
+
+        s1, s2 = BytesIO(), BytesIO()
+        guard("dump", m.dump, s1)
+        guard("dump_delimited", m.dump, s2, betterproto.SIZE_DELIMITED)
+        if s1.getvalue() != b:
+            out.append(("emitted_differently_by_dump", f"bytes={b.hex()} dump={s1.getvalue().hex()}"))
+        if s2.getvalue() != wire.enc_varint(len(b)) + b:
+            out.append(("emitted_differently_in_delimited_frame", f"bytes={b.hex()} frame={s2.getvalue().hex()}"))
+        elif guard("load_delimited", lambda: bytes(cls().load(BytesIO(s2.getvalue() + b"\x08\x01"), betterproto.SIZE_DELIMITED))) != b:
+            out.append(("delimited_frame_reads_back_differently", f"bytes={b.hex()}"))
         tracked = fi.card == "optional" or fi.oneof or fi.wkt == "wrapper"
         plain_msg = fi.card == "single" and not fi.oneof and fi.type == "message" and fi.wkt is None
         if plain_msg:
